@@ -368,7 +368,7 @@ def blen(s):
 
 def at(s, i):
     if not _anysym(s, i):
-        return s[i]
+        return s[i] if 0 <= i < len(s) else -1      # total at spec level; guarded uses only
     return SInt(AT(T(s), T(i)))
 
 
@@ -400,7 +400,7 @@ def slc(s, lo, hi):
 
 def unit(c):
     if not _anysym(c):
-        return bytes([c])
+        return bytes([c]) if 0 <= c <= 255 else b"?"   # total at spec level; guarded uses only
     return SBytes(UNIT(T(c)))
 
 
@@ -430,7 +430,10 @@ def be(s):
 def nbe(v, k):
     """v as exactly k big-endian bytes (requires 0 <= v < 256**k)"""
     if not _anysym(v, k):
-        return v.to_bytes(k, "big")
+        try:
+            return v.to_bytes(k, "big")
+        except (OverflowError, ValueError):
+            return b"?" * max(k, 0)                   # total at spec level; guarded uses only
     return SBytes(NBE(T(v), T(k)))
 
 
@@ -487,7 +490,9 @@ def imax(a, b):
 # axioms, written with the dual functions so they can be tested against CPython
 
 class Axiom(object):
-    def __init__(self, name, sorts, body, pats, domain=None):
+    def __init__(self, name, sorts, body, pats, domain=None, small=False, fit=None):
+        self.small = small      # all integer arguments are size-like (test with small values)
+        self.fit = fit          # optional lambda r, vals -> vals : steers random test values into the domain
         self.name = name
         self.sorts = sorts      # list of 'int' | 'bytes'
         self.body = body        # lambda *vars -> bool / SBool
@@ -515,9 +520,9 @@ class Axiom(object):
 AXIOMS = []
 
 
-def axiom(name, sorts, pats, domain=None):
+def axiom(name, sorts, pats, domain=None, small=False, fit=None):
     def deco(f):
-        AXIOMS.append(Axiom(name, sorts, f, pats, domain))
+        AXIOMS.append(Axiom(name, sorts, f, pats, domain, small, fit))
         return f
     return deco
 
@@ -569,20 +574,20 @@ def _(s, lo, hi):
     return Implies_(And_(eq(lo, 0), eq(hi, blen(s))), beq(slc(s, lo, hi), s))
 
 
-@axiom("unit_def", ["int"], lambda c: [unit(c)], domain=lambda c: 0 <= c <= 255)
+@axiom("unit_def", ["int"], lambda c: [unit(c)], domain=lambda c: 0 <= c <= 255, small=True)
 def _(c):
-    return And_(eq(blen(unit(c)), 1), eq(at(unit(c), 0), c))
+    return Implies_(And_(0 <= c, c <= 255), And_(eq(blen(unit(c)), 1), eq(at(unit(c), 0), c)))
 
 
-@axiom("rep_def", ["int", "int"], lambda c, k: [rep(c, k)], domain=lambda c, k: 0 <= c <= 255 and k >= 0)
+@axiom("rep_def", ["int", "int"], lambda c, k: [rep(c, k)], domain=lambda c, k: 0 <= c <= 255 and 0 <= k <= 300, small=True)
 def _(c, k):
     return Implies_(k >= 0, eq(blen(rep(c, k)), k))
 
 
 @axiom("at_rep", ["int", "int", "int"], lambda c, k, i: [at(rep(c, k), i)],
-       domain=lambda c, k, i: 0 <= c <= 255 and 0 <= i < k)
+       domain=lambda c, k, i: 0 <= c <= 255 and 0 <= i < k <= 300, small=True)
 def _(c, k, i):
-    return Implies_(And_(0 <= i, i < k), eq(at(rep(c, k), i), c))
+    return Implies_(And_(0 <= i, i < k, 0 <= c, c <= 255), eq(at(rep(c, k), i), c))
 
 
 # beq: extensional equality; beq -> sort equality (congruence)
@@ -601,9 +606,9 @@ def _beq_axioms():
 
 
 # -- integers <-> bytes
-@axiom("be_unit", ["int"], lambda c: [be(unit(c))], domain=lambda c: 0 <= c <= 255)
+@axiom("be_unit", ["int"], lambda c: [be(unit(c))], domain=lambda c: 0 <= c <= 255, small=True)
 def _(c):
-    return eq(be(unit(c)), c)
+    return Implies_(And_(0 <= c, c <= 255), eq(be(unit(c)), c))
 
 
 @axiom("be_range", ["bytes"], lambda s: [be(s)])
@@ -652,13 +657,19 @@ def _(u, v):
     return Implies_(And_(0 <= u, u <= v), bytelen(u) <= bytelen(v))
 
 
-@axiom("nbe_len", ["int", "int"], lambda v, k: [nbe(v, k)], domain=lambda v, k: k >= 0 and 0 <= v < 256 ** k)
+def _fit_vk(r, vals):
+    v, k = vals
+    k = k % 70
+    return [abs(v) % (256 ** k) if r.random() < 0.8 else r.randrange(0, 256 ** k) if k else 0, k]
+
+
+@axiom("nbe_len", ["int", "int"], lambda v, k: [nbe(v, k)], domain=lambda v, k: 0 <= k <= 70 and 0 <= v < 256 ** k, fit=_fit_vk)
 def _(v, k):
     return Implies_(And_(k >= 0, 0 <= v, v < pow256(k)),
                     And_(eq(blen(nbe(v, k)), k), eq(be(nbe(v, k)), v)))
 
 
-@axiom("nbe_lead", ["int", "int"], lambda v, k: [nbe(v, k)], domain=lambda v, k: k >= 1 and 0 <= v < 256 ** k)
+@axiom("nbe_lead", ["int", "int"], lambda v, k: [nbe(v, k)], domain=lambda v, k: 1 <= k <= 70 and 0 <= v < 256 ** k, fit=_fit_vk)
 def _(v, k):
     # leading byte: zero iff the encoding is longer than minimal (or v = 0)
     return Implies_(And_(k >= 1, 0 <= v, v < pow256(k)),
@@ -696,12 +707,12 @@ def _(v):
                                  Implies_(v >= 1, eq(hexlen(v), (bitlen(v) + 3) // 4))))
 
 
-@axiom("pow2_pos", ["int"], lambda k: [pow2(k)], domain=lambda k: 0 <= k <= 300)
+@axiom("pow2_pos", ["int"], lambda k: [pow2(k)], domain=lambda k: 0 <= k <= 300, small=True)
 def _(k):
     return Implies_(k >= 0, pow2(k) >= 1)
 
 
-@axiom("pow2_mono", ["int", "int"], lambda a, b: [[pow2(a), pow2(b)]], domain=lambda a, b: 0 <= a <= 300 and 0 <= b <= 300)
+@axiom("pow2_mono", ["int", "int"], lambda a, b: [[pow2(a), pow2(b)]], domain=lambda a, b: 0 <= a <= 300 and 0 <= b <= 300, small=True)
 def _(a, b):
     return Implies_(And_(0 <= a, a < b), 2 * pow2(a) <= pow2(b))
 
